@@ -48,10 +48,14 @@ def run(ctx):
     g("R8.1", "variables_introduced:remove=None=>drop_aux", vi, CallResult("swap_remove", "None"),
       sinks={c.bb for c in calls_named(vi, "drop_aux")})
     md = F.find1(D, name="merge_demands")
-    g("R8.1", "merge_demands:!contains_key=>drop_aux", md, CallResult("contains_key", False),
-      sinks={c.bb for c in calls_named(md, "drop_aux")}, bypass="none")
+    r_md = check_guard(md, CallResult("contains_key", False), sinks={c.bb for c in calls_named(md, "drop_aux")}, bypass="none")
+    if not r_md.ok:
+        from .guards import filter_foreach_idiom
+        r_md = filter_foreach_idiom(md, "contains_key", False, "drop_aux") or r_md
+    ctx.analysed(md)
+    ctx.ob("R8.1", "merge_demands:!contains_key=>drop_aux", r_md.ok, r_md.msg, md.where(r_md.line))
     for fn, nm in ((vu, "dup"), (ar, "dup"), (vi, "drop_aux"), (md, "drop_aux")):
-        cs = calls_named(fn, nm)
+        cs = [c for h_ in [fn] + F.closures_of(fn) for c in calls_named(h_, nm)]
         ctx.ob("R8.1", "%s:calls-%s" % (fn.name, nm), len(cs) >= 1 and all(c.callee.get("trait", "").endswith("DemandReporter") for c in cs),
                "%s reports through DemandReporter::%s (%d sites)" % (fn.name, nm, len(cs)), fn.where())
 
